@@ -31,3 +31,28 @@ else:
          '`mutants/run_mutants.sh`.\n\n' + block + '\n'
 open('DESIGN.md', 'w').write(s)
 print(len(rows), 'seeded changes')
+
+# ---- findings appendix
+kf = json.load(open('known_findings.json'))['findings']
+lines = ['### Known findings (genuine defects recorded, not repaired)', '',
+         'Each is identified by input class AND symptom (matcher registered next to the oracle in the',
+         'property module; pinned reproducer `replays/<ID>/known-*.json`); any other violation of the same',
+         'property is still reported.', '',
+         '| id | property | what fails | why not repaired |', '|---|---|---|---|']
+for e in kf:
+    if e['status'] == 'known':
+        lines.append('| %s | %s | %s | %s |' % (e['id'], e['property'], e['what'].replace('|', '/')[:400], (e.get('why_not_fixed') or '').replace('|', '/').replace('\n', ' ')[:400]))
+lines += ['', '### Fixed findings (one `fix:` commit in /repo each; regression replays `replays/<ID>/fixed-*.json`)', '',
+          '| id | property | commit | what failed |', '|---|---|---|---|']
+for e in kf:
+    if e['status'] == 'fixed':
+        lines.append('| %s | %s | %s | %s |' % (e['id'], e['property'], e.get('commit', ''), e['what'].replace('|', '/')[:300]))
+s = open('DESIGN.md').read()
+a, b = '<!-- FINDINGS-TABLE:BEGIN -->', '<!-- FINDINGS-TABLE:END -->'
+block = a + '\n' + '\n'.join(lines) + '\n' + b
+if a in s:
+    s = re.sub(re.escape(a) + '.*?' + re.escape(b), lambda _: block, s, flags=re.S)
+else:
+    s += '\n## Appendix E — findings on the unchanged tree (generated from known_findings.json)\n\n' + block + '\n'
+open('DESIGN.md', 'w').write(s)
+print(len(kf), 'findings')
